@@ -104,6 +104,13 @@ def gen_cases(rng, tier):
         c["tags"] = ["rate-application"]
         c["delegate"] = "C10"
         cases.append(c)
+    # user-declared currencies (smallest fractions that are not powers of ten,
+    # given alone or together with the minor unit): every amount on the grid
+    from props import C08
+    for c in C08.gen_cases(rng, tier):
+        if "user-currencies" in c["tags"]:
+            c["delegate"] = "C08"
+            cases.append(c)
     # money: arithmetic across currencies under an active converter, all modes
     # (the exact result on the stored operands is rounded ONCE)
     from props import C12
@@ -136,6 +143,9 @@ def oracle(case, impl):
     if case.get("delegate") == "C10":
         from props import C10
         return [f for f in C10.oracle(case, impl) if f["site"] == "apply:money"]
+    if case.get("delegate") == "C08":
+        from props import C08
+        return [f for f in C08.oracle(case, impl) if f["site"] in ("money:grid", "cur:fraction")]
     ctx = _qty.ctx_of(case)
     fails = _qty.setup_failures(case, impl)
     for o, out in list(zip(case["ops"], impl))[case["nsetup"]:]:
